@@ -16,6 +16,7 @@ import LinVerif.Lemmas.C03Compact
 import LinVerif.Lemmas.C03Ratio
 import LinVerif.Lemmas.C03Split
 import LinVerif.Lemmas.C03Reader
+import LinVerif.Lemmas.C03Aux
 import LinVerif.Model.Rollup
 import LinVerif.Generated.C03
 
@@ -243,6 +244,35 @@ theorem merge_ratio_placement_is_C04 (cfg : Cfg) (tStart t : Nat) :
   unfold LinVerif.Rollup.targetPos targetSlot
   push_cast
   rfl
+
+/-! ### prepare's union bitmap, the single TSD stream -/
+
+/-- **prepare_leaves_inputs_unchanged.** `merger.prepare` builds the union of the blocks' series ids in a
+bitmap of its own (`roaring.New()`, `tie_union_fresh`) and only or-s the blocks' bitmaps into it: every
+input block's bitmap — which that block's `dataScanner` reads AFTER the union was built (high keys,
+containers, ranks) — is what it was, and the union holds exactly the ids of the inputs. (Taking the
+first block's bitmap as the union mutates it: `Neg.aliased_union_changes_first_block`.) -/
+theorem prepare_leaves_inputs_unchanged (h : MergeAux.Alias.Heap) (refs : List Nat)
+    (hrefs : ∀ r ∈ refs, r < h.length) :
+    (∀ r, r < h.length →
+      MergeAux.Alias.deref (MergeAux.Alias.prepareUnion true h refs).1 r = MergeAux.Alias.deref h r) ∧
+    (∀ x, x ∈ MergeAux.Alias.deref (MergeAux.Alias.prepareUnion true h refs).1
+        (MergeAux.Alias.prepareUnion true h refs).2 ↔ ∃ r ∈ refs, x ∈ MergeAux.Alias.deref h r) := by
+  obtain ⟨a, _, c⟩ := prepareUnion_fresh h refs hrefs
+  exact ⟨a, c⟩
+
+/-- **one value per set bit.** The has-value bits and the coded values of a field share ONE stream
+(`MergeAux.Stream.encode`: a bit per slot, the value right behind a set bit). The decoder loop of
+`DownSamplingMultiSeriesInto` reads the value right behind every set bit — before it looks at the
+target position — so for every aggregate (first/last included), every ratio and range, with or
+without `continue`/`break`, it stays in step with the stream and computes exactly the map-based
+`feed` the merge theorems are about. (Reading a value only where it is used desynchronises:
+`Neg.lazy_value_read_desynchronises`.) -/
+theorem decoder_loop_consumes_every_value (keepsOld : Bool) (op : V → V → V) (cfg : Cfg) (tStart len : Nat)
+    (vals : List (Nat × V)) (n : Nat) (acc : List (Nat × V)) (t : Nat) :
+    MergeAux.Stream.feedS true keepsOld op cfg tStart len (MergeAux.Stream.encode vals t n) acc t n =
+      some (feed op cfg tStart len vals acc t n) :=
+  feedS_eq_feed keepsOld op cfg tStart len vals n acc t
 
 /-! ### the block writer (flusher) and the way back through the reader -/
 
@@ -566,6 +596,44 @@ theorem compaction_last_first_exact (p : Params Int) (P : List (File Int)) (hwfP
       exact hwfP f' hf' m b hin
     exact ⟨fun h => merge_last_exact p.tolerant _ hgood s f t h,
            fun h => merge_first_exact p.tolerant _ hgood s f t h⟩
+
+/-! ### the version edit of a compaction -/
+
+/-- **install_deletes_exactly_the_inputs.** The edit a merge compaction over the inputs `ins` of `level`
+and `ups` of `level+1` commits (`MarkInputDeletes` then `AddFile(level+1, ·)` for every output), applied
+to the per-level file sets, for EVERY pick: no input survives in its level, no other file of any
+level is removed, the outputs (fresh numbers) are in `level+1`, other levels are untouched. -/
+theorem install_deletes_exactly_the_inputs (v : MergeAux.Edit.Version) (level : Nat) (ins ups outs : List Nat)
+    (hl : level + 1 < v.length) (hfresh : ∀ o ∈ outs, o ∉ ups) :
+    let v' := MergeAux.Edit.applyAll v (MergeAux.Edit.installRecs true level ins ups outs)
+    (∀ x ∈ ins, x ∉ MergeAux.Edit.levelOf v' level) ∧
+    (∀ x ∈ ups, x ∉ MergeAux.Edit.levelOf v' (level + 1)) ∧
+    (∀ x ∈ MergeAux.Edit.levelOf v level, x ∉ ins → x ∈ MergeAux.Edit.levelOf v' level) ∧
+    (∀ x ∈ MergeAux.Edit.levelOf v (level + 1), x ∉ ups → x ∈ MergeAux.Edit.levelOf v' (level + 1)) ∧
+    (∀ o ∈ outs, o ∈ MergeAux.Edit.levelOf v' (level + 1)) ∧
+    (∀ i, i ≠ level → i ≠ level + 1 → MergeAux.Edit.levelOf v' i = MergeAux.Edit.levelOf v i) := by
+  intro v'
+  have he := install_effect v level ins ups outs hl
+  have hne : ¬ (level + 1 = level) := by omega
+  refine ⟨?_, ?_, ?_, ?_, ?_, ?_⟩
+  · intro x hx hin
+    rw [he level] at hin
+    simp at hin
+    exact hin.2 hx
+  · intro x hx hin
+    rw [he (level + 1)] at hin
+    simp only [hne, if_false, if_true, List.mem_append, List.mem_filter, decide_eq_true_eq] at hin
+    rcases hin with h | h
+    · exact h.2 hx
+    · exact hfresh x h hx
+  · intro x hx hni
+    rw [he level]; simp [hx, hni]
+  · intro x hx hni
+    rw [he (level + 1)]; simp [hne, hx, hni]
+  · intro o ho
+    rw [he (level + 1)]; simp [hne, ho]
+  · intro i h1 h2
+    rw [he i]; simp [h1, h2]
 
 /-- when does the compaction job complete? On scannable files (`StateWF`): always if the stream
 writer follows the current output builder; otherwise iff the output fits one file. -/
@@ -966,6 +1034,31 @@ theorem tie_merge_compaction :
       "c.installCompactionResults()", "return nil"] := by
   refine ⟨rfl, rfl, rfl⟩
 
+/-- the union bitmap of `prepare` is a new one, never assigned afterwards, only or-ed into
+(seeded c03-13 takes the first block's bitmap) -/
+theorem tie_union_fresh :
+    Generated.C03.unionBaseExpr = "roaring.New()" ∧ Generated.C03.unionAssigns = [] ∧
+    Generated.C03.unionCalls = ["seriesIDs.Or"] := by
+  refine ⟨rfl, rfl, rfl⟩
+
+/-- the decoder loop reads the value right behind the has-value test, before the position tests, and
+there is exactly one `decoder.Value()` in the function (seeded c03-14 moves it into the branches) -/
+theorem tie_decoder_loop :
+    Generated.C03.decoderLoopStmts = ["if !decoder.HasValueWithSlot(movingSourceSlot)",
+      "value := math.Float64frombits(decoder.Value())",
+      "targetPos := bs + int(movingSourceSlot/ratio) - int(target.Start)",
+      "if targetPos < 0", "if targetPos >= length", "if math.IsInf(targetValues[targetPos], 1)"] ∧
+    Generated.C03.decoderValueCalls = 1 := by
+  refine ⟨rfl, rfl⟩
+
+/-- `MarkInputDeletes` deletes the inputs of `level` from `level` and those of `level+1` from `level+1`
+(seeded c03-15 deletes both lists from `level`) -/
+theorem tie_mark_input_deletes :
+    Generated.C03.markInputDeletesLoops =
+      ["range c.levelInputs -> c.editLog.Add(NewDeleteFile(int32(c.level), input.fileNumber))",
+       "range c.levelUpInputs -> c.editLog.Add(NewDeleteFile(int32(c.level+1), upInput.fileNumber))"] := by
+  rfl
+
 /-- the model's `tol` flag is read off `nextContainer`: does it have a branch for a zero-length bucket -/
 theorem tie_tolerant :
     Generated.C03.scannerToleratesEmptyBucket =
@@ -1065,6 +1158,33 @@ theorem dead_first_bucket_fails :
     mergeFails false [dC, dB] = true ∧ mergeFails true [dC, dB] = false ∧
     (compact aggInt (dParams false) dState).2 = .crashed ∧
     (compact aggInt (dParams true) dState).2 = .merged := by
+  decide
+
+/-! aliasing, lazy value reads, one-level deletes -/
+
+/-- taking the first block's bitmap as the union: the first block's own id set has changed when its
+scanner comes to read it ([1] became [1, 2]); the second block's has not -/
+theorem aliased_union_changes_first_block :
+    MergeAux.Alias.deref (MergeAux.Alias.prepareUnion false [[1], [2]] [0, 1]).1 0 = [1, 2] ∧
+    MergeAux.Alias.deref (MergeAux.Alias.prepareUnion false [[1], [2]] [0, 1]).1 1 = [2] ∧
+    MergeAux.Alias.deref (MergeAux.Alias.prepareUnion true [[1], [2]] [0, 1]).1 0 = [1] := by
+  decide
+
+/-- a `First` field, target position 0 already set (9) by an earlier input; this input has the slots 0 and 1
+(5 and 7). The code reads 5 although it keeps 9, and goes on to place 7. A loop that does not read the
+value it does not use meets the value where it expects the next has-value bit: out of step. -/
+theorem lazy_value_read_desynchronises :
+    MergeAux.Stream.feedS true true (fun a _ => a) compactCfg 0 2
+        (MergeAux.Stream.encode [(0, (5 : Int)), (1, 7)] 0 2) [(0, 9)] 0 2 = some [(0, 9), (1, 7)] ∧
+    MergeAux.Stream.feedS false true (fun a _ => a) compactCfg 0 2
+        (MergeAux.Stream.encode [(0, (5 : Int)), (1, 7)] 0 2) [(0, 9)] 0 2 = none := by
+  decide
+
+/-- deleting the level-1 input from level 0: it survives next to the output that contains its data
+(every value of it counted twice by a reader) -/
+theorem one_level_deletes_keep_upper_input :
+    MergeAux.Edit.applyAll [[1, 2], [3, 4]] (MergeAux.Edit.installRecs false 0 [1, 2] [3] [9]) = [[], [3, 4, 9]] ∧
+    MergeAux.Edit.applyAll [[1, 2], [3, 4]] (MergeAux.Edit.installRecs true 0 [1, 2] [3] [9]) = [[], [4, 9]] := by
   decide
 
 /-! level-1 key ranges may overlap -/
